@@ -165,9 +165,8 @@ def run_catalogue(spec, rec):
         if "aliases_input" in cold:
             rec.check("integrator-returns-fresh-array", not cold["aliases_input"], site=c[0], tags=tags)
     # calls that go through module-level or object caches are also compared with their value in a fresh interpreter
-    stateful = [c for c in order if c[0].split(".")[0] in ("DFE", "Godambe", "Demes", "LowPass") or c[0] in (
-        "Numerics._cached_projection", "Numerics.multinomln", "Numerics.BetaBinomln", "Numerics.cached_part", "Numerics.BetaBinomConvolution",
-        "Spectrum.project", "Spectrum.from_phi", "Spectrum.from_phi_inbreeding", "Spectrum.from_demes", "Spectrum.from_data_dict")]
+    stateful = [c for c in order if c[0].split(".")[0] in ("DFE", "Godambe", "Demes", "LowPass", "Numerics")
+                or c[0].startswith("Spectrum.from_") or c[0].startswith("Spectrum.project")]
     if spec.get("tier") == "thorough":
         stateful = order
     with ThreadPoolExecutor(max_workers=4) as ex:
@@ -178,6 +177,15 @@ def run_catalogue(spec, rec):
             continue
         rec.check("history-independent", r["digest"] == a["digest"], site=c[0], tags={"call": c[0], "kind": "in-catalogue-run-vs-alone"},
                   observed={"in_history": r["digest"], "alone": a["digest"]})
+    # the whole catalogue once more under two other interpreter hash seeds (set / dict iteration order inside the library and
+    # its dependencies must not reach any result)
+    base = [x.get("digest", x.get("error")) for x in first[:n]]
+    with ThreadPoolExecutor(max_workers=2) as ex:
+        others = list(ex.map(lambda hs: run_calls(order, hashseed=hs), ["1", "12345"]))
+    for hs, res in zip(["1", "12345"], others):
+        for c, x, b in zip(order, res, base):
+            rec.check("hash-seed-independent", x.get("digest", x.get("error")) == b, site=c[0], tags={"hashseed": hs, "call": c[0], "kind": "catalogue"},
+                      observed={"hashseed_0": b, "hashseed_%s" % hs: x.get("digest", x.get("error"))})
     rec.note("catalogue_errors", seen_err)
     rec.note("catalogue_size", len(cat.CATALOG))
     # a catalogue entry that cannot even be built or called is a harness problem, not a verdict
